@@ -296,6 +296,59 @@ def h_is_empty():
     return h
 
 
+def h_diff_then_defaults(prog):
+    """what `create` / `--convert` writes is `config.diff(format default)`; reading it back layers the format default underneath again:
+    diff(c, D).with_defaults_from(D) == c.with_defaults_from(D), key by key and variable by variable"""
+    from props.c16 import SCALARS, env_lookup, opt_same, spec_or, sym_tcc, bool_iff
+
+    def setup(ctx):
+        c = sym_tcc(ctx, "c", 1)
+        d = sym_tcc(ctx, "d", 0)          # the format's default: any scalar values, no variables (as both formats have it)
+        ctx.notes["layers"] = (c, d)
+        return [c, d]
+
+    def drive(ctx, args):
+        """TestCaseConfig::diff(&c, &D) then .with_defaults_from(&D)"""
+        c, d = args
+        diff = ctx.call(find_method(ctx.program, "src/config.rs", "diff"), [new_ref(c), new_ref(d)])
+        ctx.notes["diff"] = diff
+        wd = [n for n in ctx.program.funcs if re.search(r"src/config\.rs[^>]*>::with_defaults_from$", n)]
+        fn = [n for n in wd if ctx.program.funcs[n].params and "TestCaseConfig" in ctx.program.funcs[n].params[0][1]]
+        if len(fn) != 1:
+            raise Unsupported("TestCaseConfig::with_defaults_from: %d candidates" % len(fn))
+        return ctx.call(fn[0], [new_ref(diff), new_ref(d)])
+
+    def post(ctx, args, kind, value):
+        if kind != "return":
+            return False
+        c, d = ctx.notes["layers"]
+        conds = [opt_same(ctx, field_of(value, k), spec_or(ctx, field_of(c, k), field_of(d, k))) for k in SCALARS]
+        probe = deref(field_of(c, "environment").entries[0][0]).chars[0]
+        fr, vr = env_lookup(ctx, field_of(value, "environment"), probe)
+        fa, va = env_lookup(ctx, field_of(c, "environment"), probe)
+        conds.append(z_and([bool_iff(fr, fa), z3.simplify(vr == va)]))
+        return z_and(conds)
+    h = e2.Harness("diff_against_format_default_loses_nothing", drive, [("fully symbolic configuration and format default", setup)], post, native=None, judge=None,
+                   describe="the part of a configuration that is written (its difference to the format's default) layered over that default again is the "
+                            "configuration layered over the default: no key and no variable is lost or changed by writing only the difference",
+                   bound="every subset of the seven scalar keys in both layers (any values), one variable in the configuration, none in the default")
+    h.models_cls = YamlModels
+    return h
+
+
+def replay_diff_then_defaults(rep, h, res):
+    from props.c16 import tcc_to_json
+    for model, r in res.raw_witnesses[:4]:
+        c, d = (tcc_to_json(x, model) for x in r.ctx.notes["layers"])
+        nk, nv = NAT.call("tcc_diff_defaults", [c, d])
+        if nk != "return" or nv.get("equal") is not True:
+            rep.violation("config-diff:key-lost", "configuration %s written as its difference to the default %s and layered over it again is %s, not %s"
+                          % (c, d, nv.get("got") if isinstance(nv, dict) else nv, nv.get("want") if isinstance(nv, dict) else None),
+                          {"kind": "eval", "fn": "tcc_diff_defaults", "args": [c, d], "native": [nk, nv], "harness": h.name})
+        else:
+            rep.mismatches.append("%s: solver witness %s / %s did not reproduce natively: %s" % (h.name, c, d, nv))
+
+
 def h_serialize_keys(prog):
     """derived `Serialize for TestCaseConfig` (YAML front-matter `defaults`, json / yaml renderers) against a recording serializer:
     a key is written iff it is set — whatever its value"""
@@ -475,6 +528,10 @@ def run(pid, tier):
     resy = e2.run_with_raw(prog, hy)
     replay_serialize(rep, hy, resy)
     e2.record(rep, hy, resy)
+    hdd = h_diff_then_defaults(prog)
+    resdd = e2.run_with_raw(prog, hdd, max_witnesses=4)
+    replay_diff_then_defaults(rep, hdd, resdd)
+    e2.record(rep, hdd, resdd)
     he = h_is_empty()
     rese = e2.run_with_raw(prog, he)
     replay_is_empty(rep, he, rese)
